@@ -1,9 +1,11 @@
 """Case-generation helpers shared by gen/cxx.py.  All randomness comes from one random.Random."""
 import random
 
-QUICK_CFGS = ["8x1", "8x2", "8x3", "8x5", "16x1", "16x3", "32x2", "32x3", "64x1", "64x2", "64x3"]
-THOROUGH_CFGS = QUICK_CFGS + ["8x4", "8x8", "8x16", "8x17", "8x40", "16x2", "16x4", "16x5", "16x20",
-                              "32x1", "32x4", "32x6", "32x10", "64x4", "64x5", "64x8", "64x16", "64x128"]
+QUICK_CFGS = ["8x1", "8x2", "8x3", "8x5", "16x1", "16x3", "32x2", "32x3", "64x1", "64x2", "64x3",
+              # wider instantiations (136, 80, 192, 320, 512 bits): changes that only show with many digits
+              "8x17", "16x5", "32x6", "64x5", "64x8"]
+THOROUGH_CFGS = QUICK_CFGS + ["8x4", "8x8", "8x16", "8x40", "16x2", "16x4", "16x20",
+                              "32x1", "32x4", "32x10", "64x4", "64x16", "64x128"]
 
 
 def cfgs(tier):
